@@ -16,6 +16,7 @@ import YalafiVerif.Proofs.Utils
 import YalafiVerif.Proofs.Lines
 import YalafiVerif.Properties.PlainLangStmt
 import YalafiVerif.Properties.PlainForeignStmt
+import YalafiVerif.Properties.PlainLangMixStmt
 namespace Yalafi
 
 theorem C12_sections_conserve (toks : List Tok) (main : Str) :
